@@ -413,9 +413,9 @@ pub fn run(ctx: &Ctx, rep: &mut Report) {
     rep.sub_set("every-suspension-point", "exhaustive", json!(true));
     rep.sub_set("every-suspension-point", "what", json!("one writer (two updates) suspended after 0..17 of its hooked steps, and two writers suspended after 0..9 steps each, x solo caller in {snapshot, sequence, try_update(older), try_update(newer)}"));
     engine::enumerate(ctx, rep, "nfs-unlocked", nfs_cases().into_iter(), check_case);
-    let cases = ctx.share(ctx.tier.pick(60_000, 3_000_000));
+    let cases = ctx.share(ctx.tier.pick(120_000, 3_000_000));
     engine::drive(ctx, rep, "random", case_strategy(), cases, check_case);
-    let cases = ctx.share(ctx.tier.pick(16_000, 1_200_000));
+    let cases = ctx.share(ctx.tier.pick(32_000, 1_200_000));
     engine::drive(ctx, rep, "starved-reader", starve_strategy(), cases, check_starve);
 }
 
